@@ -50,7 +50,7 @@ class C03(Prop):
             "blocks parsed alone, == whole without unsupported statements, block permutation permutes the result; "
             "non-trivial = >= 3 blocks of >= 2 distinct kinds and >= 1 unsupported statement (corpus: >= 2 distinct scripts); "
             "distinct = SHA-1 of the case")
-    budgets = {"quick": 3000, "thorough": 120000}
+    budgets = {"quick": 3000, "thorough": 60000}
     assumptions = [
         "scripts containing \"input.regex\" (K7) or a backslash-escaped quote (K8) are not combined with others (known findings; "
         "corpus items carrying them are skipped and counted)",
